@@ -83,8 +83,8 @@ pub struct State {
     pub(crate) inline_modules: FnvMap<String, Arc<Cow<'static, str>>>,
     pub(crate) index_map: FnvMap<String, BytePos>,
     extern_globals: FnvSet<String>,
-    // Modules whose text were queried while they were missing from `inline_modules`
-    queried_missing_modules: FnvSet<String>,
+    // Modules which were asked for but could not be found
+    missing_modules: FnvSet<String>,
 }
 
 impl State {
@@ -198,32 +198,33 @@ impl crate::query::CompilationBase for CompilerDatabase {
         let state = self.state.clone();
         let mut state = state.lock().unwrap();
 
-        match state.inline_modules.entry(module.clone()) {
+        let invalidate = match state.inline_modules.entry(module.clone()) {
             hash_map::Entry::Occupied(entry) => {
                 let entry = entry.into_mut();
                 if &**entry != contents {
                     let entry_contents = Arc::make_mut(entry).to_mut();
                     entry_contents.clear();
                     entry_contents.push_str(contents);
-                    ModuleTextQuery
-                        .in_db_mut(self as &mut dyn Compilation)
-                        .invalidate(&module);
+                    true
                 } else {
                     return;
                 }
             }
             hash_map::Entry::Vacant(entry) => {
                 entry.insert(Arc::new(Cow::Owned(contents.into())));
-                // If an importer already asked for this module the (lack of) text it saw were
+                // If an importer already asked for this module in vain, the error it got is
                 // memoized
-                if state.queried_missing_modules.remove(&module) {
-                    ModuleTextQuery
-                        .in_db_mut(self as &mut dyn Compilation)
-                        .invalidate(&module);
-                }
+                state.missing_modules.remove(&module)
             }
-        }
+        };
         state.add_filemap(&module, &contents[..]);
+        // Queries which are still running may need `state` and `invalidate` waits for them
+        drop(state);
+        if invalidate {
+            ModuleTextQuery
+                .in_db_mut(self as &mut dyn Compilation)
+                .invalidate(&module);
+        }
     }
 
     fn peek_typechecked_source_module(
@@ -542,14 +543,7 @@ fn module_text(db: &dyn Compilation, module: String) -> StdResult<Arc<Cow<'stati
     db.salsa_runtime()
         .report_synthetic_read(salsa::Durability::LOW);
 
-    let opt = {
-        let mut state = db.compiler().state();
-        let opt = state.inline_modules.get(&module).cloned();
-        if opt.is_none() {
-            state.queried_missing_modules.insert(module.clone());
-        }
-        opt
-    };
+    let opt = { db.compiler().state().inline_modules.get(&module).cloned() };
     let contents = if let Some(contents) = opt {
         contents
     } else {
@@ -560,7 +554,10 @@ fn module_text(db: &dyn Compilation, module: String) -> StdResult<Arc<Cow<'stati
         Arc::new(
             crate::get_import(db.thread())
                 .get_module_source(use_standard_lib, &module, &filename)
-                .map_err(macros::Error::new)?,
+                .map_err(|err| {
+                    db.compiler().state().missing_modules.insert(module.clone());
+                    macros::Error::new(err)
+                })?,
         )
     };
 
